@@ -144,7 +144,7 @@ func genC06(seed uint64, tier string) *Plan {
 	p.Cfg.IndexFile = small[r.Intn(len(small))]
 	if r.Chance(0.4) {
 		// background collectors on short simulated intervals
-		p.Cfg.GCMs = int64(10 + r.Intn(90))
+		p.Cfg.GCMs = int64([]int{3, 5, 10, 30, 100}[r.Intn(5)] + r.Intn(10))
 		p.Cfg.GCLimitMs = int64([]int{0, 1, 5, 50}[r.Intn(4)])
 	} else {
 		p.Cfg.GCMs = 1000 * 3600 * 1000
@@ -154,21 +154,49 @@ func genC06(seed uint64, tier string) *Plan {
 	background := p.Cfg.GCMs < 1000*3600
 	if !background && r.Chance(0.85) {
 		var g []Op
-		for i := 0; i < 2+r.Intn(5); i++ {
-			g = append(g, Op{K: "sleep", A: 1 + r.Intn(2000)}, Op{K: "igc", A: r.Intn(2)})
+		n, think := 2+r.Intn(5), 2000
+		if r.Chance(0.5) {
+			n, think = 5+r.Intn(12), 600 // collector busy for the whole run
+		}
+		for i := 0; i < n; i++ {
+			g = append(g, Op{K: "sleep", A: 1 + r.Intn(think)}, Op{K: "igc", A: r.Intn(2)})
 		}
 		p.Clients = append(p.Clients, g)
 	}
 	if !background && r.Chance(0.85) {
 		var g []Op
-		for i := 0; i < 2+r.Intn(5); i++ {
-			g = append(g, Op{K: "sleep", A: 1 + r.Intn(2000)}, Op{K: "pgc", A: []int{0, 1, 50, 74, 85, 100}[r.Intn(6)]})
+		n, think := 2+r.Intn(5), 2000
+		if r.Chance(0.5) {
+			n, think = 5+r.Intn(12), 600
+		}
+		for i := 0; i < n; i++ {
+			g = append(g, Op{K: "sleep", A: 1 + r.Intn(think)}, Op{K: "pgc", A: []int{0, 1, 50, 74, 85, 100}[r.Intn(6)]})
 		}
 		p.Clients = append(p.Clients, g)
+	}
+	// readers: lookups are where stale positions are held
+	if r.Chance(0.6) {
+		var rd []Op
+		for i := 0; i < 4+r.Intn(10); i++ {
+			if r.Chance(0.3) {
+				rd = append(rd, Op{K: "sleep", A: 1 + r.Intn(500)})
+			}
+			rd = append(rd, Op{K: []string{"get", "get", "has", "size"}[r.Intn(4)], Key: r.Intn(len(p.Keys))})
+		}
+		p.Clients = append(p.Clients, rd)
 	}
 	if r.Chance(0.3) && p.Sim.Latency.Kind != "" {
 		p.Sim.Latency.StallOp = 20 + r.Intn(300)
 		p.Sim.Latency.StallNs = int64(1+r.Intn(50)) * int64(time.Millisecond)
+	}
+	if r.Chance(0.4) {
+		// slow disk: one in k operations stalls long enough for a flush and a GC
+		// cycle to complete while a reader sits between its lookup and its read
+		p.Sim.Latency.StallEvery = 5 + r.Intn(60)
+		p.Sim.Latency.StallNs = int64(1+r.Intn(40)) * int64(time.Millisecond)
+		if p.Cfg.SyncMs > 20 {
+			p.Cfg.SyncMs = 1 + r.Intn(10)
+		}
 	}
 	return p
 }
@@ -294,6 +322,10 @@ func runConc(p *Plan, tape *simrt.Tape, opt RunOpt) *RunOut {
 			}
 		}
 		closeErr = d.St.Close()
+		if p.x("fsck", 0) == 1 && closeErr == nil {
+			// quiescent only now: the flusher and the collectors have stopped
+			d.RunFsckLoose("after all tasks stopped and Close", true)
+		}
 	})
 	d.fileProbes(fs)
 	out.addFS(fs)
@@ -318,6 +350,10 @@ func runConc(p *Plan, tape *simrt.Tape, opt RunOpt) *RunOut {
 			out.Viol = &Violation{Prop: p.Prop, Class: "race/data-race", Msg: fmt.Sprintf("the race detector reported %d data race(s) during this run:\n%s", n, raceReportText())}
 			out.Inconclusive = ""
 		}
+	}
+	if p.Prop == "C07" && out.Viol != nil && !strings.HasPrefix(out.Viol.Class, "fsck") {
+		out.Probes["other-oracle-failed"]++
+		out.Viol = nil
 	}
 	if p.x("race", 0) == 1 {
 		// C16 reports only races; other oracles belong to C05/C06
